@@ -95,6 +95,8 @@ Definition go_english (T : tables) (colon : bool) (digits : text) : option text 
   match digits with
   | ["0"] => Some (if colon then tx "zeroth" else tx "zero")
   | _ =>
+    if Nat.ltb (3 * List.length (t_triples T)) (List.length digits) then None     (* number too large: no scale word *)
+    else
     match go_card_loop T (t_triples T) digits (Z.of_nat (List.length digits) - 1)%Z []
                        (if colon then t_ordone T else t_one T) (if colon then t_ordteen T else t_teen T) with
     | None => None
